@@ -39,6 +39,13 @@ func unsupProgs(seed int64, n int, all bool) []*synth.Program {
 		p, _ := synth.NewUnsupProg(i, synth.UnsupForms[fp[0]], synth.UnsupPositions[fp[1]])
 		out = append(out, p)
 	}
+	// the forms that only exist at top level (they name the declared type) are always included
+	for _, fp := range pl {
+		if synth.UnsupForms[fp[0]].TopLevelOnly {
+			p, _ := synth.NewUnsupProg(len(out), synth.UnsupForms[fp[0]], synth.UnsupPositions[fp[1]])
+			out = append(out, p)
+		}
+	}
 	return out
 }
 
@@ -46,6 +53,14 @@ func checkC18(cfg *core.Config) int {
 	rep := core.NewReport(cfg)
 	progs := typeProgs(cfg.Seed, cfg.Pick(32, 2000))
 	progs = append(progs, unsupProgs(cfg.Seed, 60, cfg.Thorough())...)
+	// unusual but legal spellings, every time: one-letter names, recursion through pointers and keys
+	for i := 0; i < cfg.Pick(6, 120); i++ {
+		r := core.Rand(cfg.Seed, "typeprog-c18-spellings", i)
+		opts := synth.RandomTypeOpts(r)
+		opts.OneLetterNames = true
+		opts.Recursive, opts.Pointers = true, i%2 == 0
+		progs = append(progs, synth.NewTypeProg(cfg.Seed, 9000+i, r, opts))
+	}
 	progs = append(progs, sqlProgs(cfg.Seed, cfg.Pick(16, 800))...)
 	progs = append(progs, routeProgs(cfg.Seed, cfg.Pick(16, 800))...)
 	progs = append(progs, pinnedPrograms("C18")...)
